@@ -202,6 +202,9 @@ def c20(ctx, rep):
     np_, nd = rules_total.check_profile(rep, dbg, rel)
     rules_total.check_debug_regions(rep, dbg)
     # the debug-only cross-checks must agree with what they check, or debug builds panic where release builds return
+    rep.rule('FWD', 'every auto_impl forwarding impl (&T, Box<T>, Rc<T>) of a model trait forwards every method, also those with a default body')
+    fw = rules_total.check_forwarding(rep, dbg)
+    rep.floor('forwarding impls', fw, 15)
     rep.rule('FP-SIB', 'the debug-only linear scan agrees with the iterative search on range inclusivity, zero-demand result and Err payload')
     rep.rule('BW-SIB', 'the debug-only brute-force step enumeration of bw::rta_subchain states Lemma 19 with the same shifts as the production search space, over 0..=max_offset')
     rules_fp.check_brute_sibling(rep, dbg)
